@@ -109,6 +109,8 @@ if engine == "seq":
     # P, so without this the closer always finishes what follows first)
     new, n2 = re.subn(r'^([ \t]*)(close\([\w.]+\.done\))[ \t]*$', r'\1\2\n\1verifYieldPoint()', new, flags=re.M)
     n += n2
+    new, n3 = re.subn(r'^([ \t]*)defer (close\([\w.]+\.done\))[ \t]*$', r'\1defer func() { \2; verifYieldPoint() }()', new, flags=re.M)
+    n += n3
     if n > 0:
         p = os.path.join(gen, "ctlog.go")
         if not os.path.exists(p) or open(p).read() != new:
